@@ -685,7 +685,7 @@ esl_abc_Digitize(const ESL_ALPHABET *a, const char *seq, ESL_DSQ *dsq)
   dsq[0] = eslDSQ_SENTINEL;
   for (i = 0, j = 1; seq[i] != '\0'; i++) 
     { 
-      x = a->inmap[(int) seq[i]];
+      x = (isascii(seq[i]) ? a->inmap[(int) seq[i]] : eslDSQ_ILLEGAL); /* inmap is [0..127]; char may be signed */
       if      (esl_abc_XIsValid(a, x)) dsq[j] = x;
       else if (x == eslDSQ_IGNORED) continue; 
       else {
